@@ -6,6 +6,13 @@
 //!   *_rel    (release mode) any input       => no panic, value == wrapping value
 //! Harnesses are compiled twice by the driver: debug assertions on (mode dbg) and off (mode rel).
 
+#[macro_export]
+macro_rules! c04_flag {
+    (ok, ok) => { true };
+    (full, full) => { true };
+    ($a:ident, $b:ident) => { false };
+}
+
 /// `$mode` = ok | panic | rel.   Operators + - (unary -) and abs / next_power_of_two.
 #[macro_export]
 macro_rules! c04_lin_ops {
@@ -56,11 +63,11 @@ macro_rules! c04_lin_ops {
             let sel: u8 = $crate::nd::nd();
             $crate::nd::assume(sel < 7);
             let (f, w): (bool, [$D; $N]) = $crate::c04_lin_ops!(@sel ua, ub, a, b, sel);
-            if stringify!($mode) == "ok" { $crate::nd::assume(!f); }
+            if $crate::c04_flag!(ok, $mode) { $crate::nd::assume(!f); }
             let r: [$D; $N] = $crate::c04_lin_ops!(@call ua, ub, a, b, sel);
             assert!(deq(&r, &w), "value equals the wrapped result");
             $crate::reach!(sel == 0, "u+"); $crate::reach!(sel == 2, "npot"); $crate::reach!(sel == 5, "neg"); $crate::reach!(sel == 6, "abs");
-            $crate::reach!(f || stringify!($mode) == "ok", "overflowing input returns the wrapped value (release)");
+            $crate::reach!(f || $crate::c04_flag!(ok, $mode), "overflowing input returns the wrapped value (release)");
         });
     };
 }
@@ -116,12 +123,12 @@ macro_rules! c04_mul_ops {
             let sel: u8 = $crate::nd::nd();
             $crate::nd::assume(sel < 6);
             let (f, w): (bool, [$D; $N]) = $crate::c04_mul_ops!(@sel ua, ub, a, b, e, sel);
-            if stringify!($mode) == "ok" { $crate::nd::assume(!f); }
+            if $crate::c04_flag!(ok, $mode) { $crate::nd::assume(!f); }
             let r: [$D; $N] = $crate::c04_mul_ops!(@call ua, ub, a, b, e, sel);
             // signed next_multiple_of on overflow (release): any wrapped value is accepted, only "no panic" is asserted
             if !(sel == 5 && f) { assert!(deq(&r, &w), "value equals the wrapped result"); }
             $crate::reach!(sel == 0, "u*"); $crate::reach!(sel == 3, "ipow"); $crate::reach!(sel == 4, "u next_multiple_of");
-            $crate::reach!(f || stringify!($mode) == "ok", "overflowing input returns the wrapped value (release)");
+            $crate::reach!(f || $crate::c04_flag!(ok, $mode), "overflowing input returns the wrapped value (release)");
         });
     };
 }
@@ -178,7 +185,7 @@ macro_rules! c04_shift {
             let sel: u8 = $crate::nd::nd();
             $crate::nd::assume(sel < 12);
             let (in_range, amt): (bool, u32) = $crate::c04_shift!(@amount r, sel);
-            if stringify!($mode) == "ok" { $crate::nd::assume(in_range); }
+            if $crate::c04_flag!(ok, $mode) { $crate::nd::assume(in_range); }
             let v: [$D; $N] = $crate::c04_shift!(@call x, r, sel, $op);
             if in_range {
                 assert!(deq(&v, &x.$chk(amt).unwrap().dg()), "in-range amount: the exact shift");
@@ -186,7 +193,7 @@ macro_rules! c04_shift {
                 assert!(deq(&v, &x.$wr(amt).dg()), "release build: amount reduced (`as u32`, then masked) - the wrapped result");
             }
             $crate::reach!(sel == 1, "u16"); $crate::reach!(sel == 11 && amt > 0, "isize"); $crate::reach!(sel == 4, "u128");
-            $crate::reach!(!in_range || stringify!($mode) == "ok", "out-of-range amount wraps (release)");
+            $crate::reach!(!in_range || $crate::c04_flag!(ok, $mode), "out-of-range amount wraps (release)");
         });
     };
 }
@@ -262,7 +269,7 @@ macro_rules! c04_nopanic {
             let _ = (a.wrapping_add(b), a.wrapping_sub(b), a.wrapping_neg(), a.wrapping_abs(), a.wrapping_shl(s), a.wrapping_shr(s), a.wrapping_add_unsigned(ub), a.wrapping_sub_unsigned(ub));
             let _ = (a.overflowing_add(b), a.overflowing_sub(b), a.overflowing_neg(), a.overflowing_abs(), a.overflowing_shl(s), a.overflowing_shr(s));
             let _ = (a.saturating_add(b), a.saturating_sub(b), a.saturating_neg(), a.saturating_abs(), a.saturating_add_unsigned(ub), a.saturating_sub_unsigned(ub));
-            if stringify!($what) == "full" {
+            if $crate::c04_flag!(full, $what) {
                 t!(ua.checked_mul(ub)); t!(ua.checked_div(ub)); t!(ua.checked_rem(ub)); t!(ua.checked_div_euclid(ub)); t!(ua.checked_rem_euclid(ub));
                 t!(ua.checked_pow(s)); t!(ua.checked_next_multiple_of(ub)); t!(ua.checked_ilog10()); t!(ua.checked_ilog(ub));
                 t!(a.checked_mul(b)); t!(a.checked_div(b)); t!(a.checked_rem(b)); t!(a.checked_div_euclid(b)); t!(a.checked_rem_euclid(b));
